@@ -332,7 +332,14 @@ def replay(rec):
     refs = fresh_refs()
     if rec["driver"] == "history":
         W = World(rec["fam"], refs[rec["fam"]])
-        return W.run(rec["seq"])[0] or []
+        # the recorded history, then the same history again and again on the same interpreter (a longer history of
+        # which the recorded one is a piece): purity must survive any number of earlier evaluations
+        objs, holders = {}, {}
+        for rep in range(8):
+            msgs = W.run(rec["seq"], objs=objs, holders=holders)[0]
+            if msgs:
+                return [m + (f" [on repetition {rep + 1} of the recorded history]" if rep else "") for m in msgs]
+        return []
     if rec["driver"] == "cross":
         return [v["message"] for v in cross_family(refs)[1]]
     return [rec.get("message", "")]
